@@ -28,52 +28,97 @@ def run(repo, tier):
     r.rule("R17.1", "double-word ln2: |hi+lo-ln2| <= ulp(lo)/2 and hi leaves enough trailing zero bits for exact k*hi", floor=9)
     r.rule("R17.2", "reduction formula: k = floor(x*ln2inv + 1/2), r = x - k*ln2hi, c = -k*ln2lo; scalar constants correctly rounded", floor=5)
 
-    f = repo.func(REL, "get_log2_doubleword_and_inverse")
-    paths = [p for p in enumerate_paths(f) if p.exit == "return"]
-    if not paths:
-        raise AnalysisError("get_log2_doubleword_and_inverse: no returning path (all branches of the if-chain disabled?)")
-    # all feasible paths must agree on the constants (hasattr branch only adds references)
-    seen = None
-    for p in paths:
-        env = {}
-        sel = {}
-        scal = {}
-        for e in p.events:
-            if e.kind != "stmt" or not isinstance(e.node, ast.Assign) or not isinstance(e.node.targets[0], ast.Name):
-                continue
-            nm = e.node.targets[0].id
-            v = e.node.value
-            while isinstance(v, ast.Call) and isinstance(v.func, ast.Attribute) and v.func.attr == "reference":
-                v = v.func.value
-            if isinstance(v, ast.Call) and (call_name(v) or "").endswith("constant") and v.args:
-                c = ev(v.args[0])
-                if isinstance(c, (int, float)):
-                    env[nm] = (c, v.args[0])
-                    if nm in ("ln2", "ln2inv", "ln2half"):
-                        scal[nm] = (c, v.args[0])
-            elif isinstance(v, ast.Call) and (call_name(v) or "").endswith("select"):
-                sw, why = dtype_switch(v)
-                if sw is None:
-                    r.ob("R17.1", f"{REL}::get_log2_doubleword_and_inverse {nm} dtype switch", False, why, loc(REL, e.node))
-                    continue
-                sel[nm] = {b: env.get(dotted(n)) for b, n in sw.items()}
-        if "ln2hi" not in sel or "ln2lo" not in sel:
-            raise AnalysisError("get_log2_doubleword_and_inverse: ln2hi/ln2lo selects not found")
-        sig = {b: (sel["ln2hi"][b][0], sel["ln2lo"][b][0]) for b in BITS}
-        if seen is not None and sig != seen:
-            raise AnalysisError("paths through get_log2_doubleword_and_inverse disagree on the constants")
-        if seen is not None:
-            continue
-        seen = sig
+    from sa.kernels import Extractor, IN, CONST, normal as knf, show, lift, is_term, Unsupported as KUnsupported
+
+    ex = Extractor(repo)
+    x = IN("x")
+    g = repo.func(REL, "argument_reduction_exponent")
+    try:
+        got = ex.call(REL, "argument_reduction_exponent", [("opaque", "ctx"), x], {})
+    except KUnsupported as e:
+        raise AnalysisError(f"argument_reduction_exponent: dataflow not understood: {e}")
+    if not (isinstance(got, (tuple, list)) and not is_term(got) and len(got) == 3):
+        raise AnalysisError(f"argument_reduction_exponent: expected a 3-tuple (k, r, c), got {got!r}")
+    kt, rt, ct = (lift(t) for t in got)
+
+    def subterms(t, out):
+        if is_term(t):
+            out.append(t)
+            for a in t[1:]:
+                if isinstance(a, tuple):
+                    subterms(a, out)
+        return out
+
+    def replace(t, old, new_):
+        if t == old:
+            return new_
+        if is_term(t):
+            return tuple(replace(a, old, new_) if isinstance(a, tuple) else a for a in t)
+        return t
+
+    def top_constants(t):
+        """maximal sub-terms built only from constants and selects on `largest` (the dtype switch)"""
+        out = []
+
+        def pure(u):
+            return all(v[0] in ("const", "select", "cmp") for v in subterms(u, []))
+
+        def walk(u):
+            if is_term(u) and u[0] in ("const", "select") and pure(u):
+                out.append(u)
+                return
+            if is_term(u):
+                for a in u[1:]:
+                    if isinstance(a, tuple):
+                        walk(a)
+
+        walk(t)
+        return out
+
+    # ---- k = floor(x * INV + 1/2)
+    consts = [c for c in top_constants(kt) if c != ("const", "0.5")]
+    if len(consts) != 1:
+        r.ob("R17.2", f"{REL}::argument_reduction_exponent k", False, f"k = {show(kt)}: not of the form floor(x * ln2inv + 1/2)", loc(REL, g))
+        INV = None
+    else:
+        INV = consts[0]
+        want_k = ("fn", "floor", ("op", "+", ("op", "*", x, INV), ("const", "0.5")))
+        r.ob("R17.2", f"{REL}::argument_reduction_exponent k", knf(kt) == knf(want_k), f"k = {show(kt)}; expected floor(x * ln2inv + 1/2)", loc(REL, g))
+    K = IN("k")
+    r2, c2 = replace(rt, kt, K), replace(ct, kt, K)
+    hi_c = top_constants(r2)
+    lo_c = top_constants(c2)
+    HI = hi_c[0] if len(hi_c) == 1 else None
+    LO = lo_c[0] if len(lo_c) == 1 else None
+    ok_r = HI is not None and knf(r2) == knf(("op", "-", x, ("op", "*", K, HI)))
+    ok_c = LO is not None and knf(c2) == knf(("neg", ("op", "*", K, LO)))
+    r.ob("R17.2", f"{REL}::argument_reduction_exponent r = x - k*ln2hi", ok_r, f"r = {show(r2)[:300]} (k stands for the first result)", loc(REL, g))
+    r.ob("R17.2", f"{REL}::argument_reduction_exponent c = -k*ln2lo", ok_c, f"c = {show(c2)[:300]} (k stands for the first result)", loc(REL, g))
+
+    def value_for(term, b):
+        """numeric literal selected for format b by a dtype switch on `largest`"""
+        t = term
+        while t[0] == "select":
+            cnd = t[1]
+            if not (cnd[0] == "cmp" and cnd[2] == ("const", "largest") and cnd[3][0] == "const"):
+                raise AnalysisError(f"dtype switch condition not understood: {show(cnd)}")
+            thr = float(cnd[3][1])
+            lhs = float(LARGEST[b])
+            truth = {">": lhs > thr, ">=": lhs >= thr, "<": lhs < thr, "<=": lhs <= thr}[cnd[1]]
+            t = t[2] if truth else t[3]
+        if t[0] != "const":
+            raise AnalysisError(f"constant expected, got {show(t)}")
+        return float(t[1])
+
+    if HI is not None and LO is not None:
         for b in BITS:
-            hi_lit, hi_node = sel["ln2hi"][b]
-            lo_lit, lo_node = sel["ln2lo"][b]
+            hi_lit, lo_lit = value_for(HI, b), value_for(LO, b)
             hi, lo = round_to(b, hi_lit), round_to(b, lo_lit)
             err = abs(hi + lo - LN2)
             bound = ulp(b, lo) / 2
             r.ob(
                 "R17.1", f"{REL}::ln2 double-word float{b} accuracy", err <= bound and hi > 0 and lo > 0,
-                f"float{b}: hi={hi_lit!r} lo={lo_lit!r}: |hi+lo-ln2| = {float(err):.3e} exceeds ulp(lo)/2 = {float(bound):.3e}", loc(REL, hi_node),
+                f"float{b}: hi={hi_lit!r} lo={lo_lit!r}: |hi+lo-ln2| = {float(err):.3e} exceeds ulp(lo)/2 = {float(bound):.3e}", loc(REL, g),
                 sample=dict(rule="R17.1", bits=b, hi=hi_lit, lo=lo_lit, abs_err=float(err), half_ulp_lo=float(bound)),
             )
             sb = significant_bits(hi)
@@ -81,43 +126,35 @@ def run(repo, tier):
             r.ob(
                 "R17.1", f"{REL}::ln2hi float{b} short enough for exact k*hi", sb + need <= PREC[b],
                 f"float{b}: ln2hi={hi_lit!r} uses {sb} significand bits; with |k| <= {KMAX[b]} ({need} bits) the product k*hi needs {sb + need} > {PREC[b]} bits and is rounded",
-                loc(REL, hi_node),
+                loc(REL, g),
             )
             r.ob("R17.1", f"{REL}::ln2hi float{b} literal is exactly representable", round_to(b, hi_lit) == Fraction(hi_lit) if b == 64 else significant_bits(round_to(b, hi_lit)) <= PREC[b],
-                 "", loc(REL, hi_node))
-        # scalar constants
-        want = {"ln2": LN2, "ln2inv": LN2INV, "ln2half": LN2 / 2}
-        for nm, true in want.items():
-            if nm not in scal:
-                raise AnalysisError(f"get_log2_doubleword_and_inverse: constant {nm} not found")
-            lit, node = scal[nm]
-            for b in BITS:
-                v = round_to(b, lit)
-                ok = abs(v - true) <= ulp(b, true) / 2
-                r.ob("R17.2", f"{REL}::{nm} float{b} correctly rounded", ok, f"{nm}={lit!r} rounds to {float(v)!r} in float{b}; |error| = {float(abs(v - true)):.3e} > half ulp", loc(REL, node))
-    # return order
-    ret = paths[0].exit_node.value
-    names = [dotted(e) for e in ret.elts] if isinstance(ret, ast.Tuple) else []
-    r.ob("R17.2", f"{REL}::get_log2_doubleword_and_inverse return order", names == ["ln2", "ln2hi", "ln2lo", "ln2inv", "ln2half"], f"returns {names}", loc(REL, ret))
-
-    g = repo.func(REL, "argument_reduction_exponent")
-    env = {}
-    unpack = None
-    for st in g.body:
-        if isinstance(st, ast.Assign):
-            t = st.targets[0]
-            if isinstance(t, ast.Name):
-                env[t.id] = norm_src(st.value)
-            elif isinstance(t, ast.Tuple):
-                unpack = ([dotted(e) for e in t.elts], norm_src(st.value))
-    ok = unpack is not None and unpack[0] == ["ln2", "ln2hi", "ln2lo", "ln2inv", "ln2half"] and unpack[1].startswith("get_log2_doubleword_and_inverse(")
-    r.ob("R17.2", f"{REL}::argument_reduction_exponent unpacks constants in order", ok, f"unpack is {unpack}", loc(REL, g))
-    k_ok = env.get("k", "").replace(" ", "") in ("ctx.floor(x*ln2inv+half)", "ctx.floor(ln2inv*x+half)", "ctx.floor(half+x*ln2inv)")
-    r.ob("R17.2", f"{REL}::argument_reduction_exponent k", k_ok and env.get("half", "").startswith("ctx.constant(0.5"), f"k = {env.get('k')}, half = {env.get('half')}", loc(REL, g))
-    r_ok = env.get("r", "").replace(" ", "") in ("x-k*ln2hi", "x-ln2hi*k")
-    c_ok = env.get("c", "").replace(" ", "") in ("-k*ln2lo", "-(k*ln2lo)", "-ln2lo*k", "-(ln2lo*k)")
-    r.ob("R17.2", f"{REL}::argument_reduction_exponent r = x - k*ln2hi", r_ok, f"r = {env.get('r')}", loc(REL, g))
-    r.ob("R17.2", f"{REL}::argument_reduction_exponent c = -k*ln2lo", c_ok, f"c = {env.get('c')}", loc(REL, g))
-    rets = [n for n in ast.walk(g) if isinstance(n, ast.Return)]
-    r.ob("R17.2", f"{REL}::argument_reduction_exponent returns (k, r, c)", len(rets) == 1 and norm_src(rets[0].value) in ("(k, r, c)", "k, r, c"), f"returns {norm_src(rets[0].value) if rets else None}", loc(REL, g))
+                 "", loc(REL, g))
+    if INV is not None:
+        for b in BITS:
+            lit = value_for(INV, b)
+            v = round_to(b, lit)
+            ok = abs(v - LN2INV) <= ulp(b, LN2INV) / 2
+            r.ob("R17.2", f"{REL}::1/ln2 float{b} correctly rounded", ok, f"the multiplier {lit!r} rounds to {float(v)!r} in float{b}; |error vs 1/ln 2| = {float(abs(v - LN2INV)):.3e} > half ulp", loc(REL, g))
+    # every other scalar the constants function returns that is (close to) ln 2 or ln 2 / 2 must be correctly rounded too
+    f = repo.func(REL, "get_log2_doubleword_and_inverse")
+    try:
+        allc = ex.call(REL, "get_log2_doubleword_and_inverse", [("opaque", "ctx"), CONST("largest")], {})
+    except KUnsupported as e:
+        raise AnalysisError(f"get_log2_doubleword_and_inverse: {e}")
+    for pos, t in enumerate(allc if not is_term(allc) else [allc]):
+        t = lift(t)
+        if t[0] != "const":
+            continue
+        try:
+            lit = float(t[1])
+        except ValueError:
+            continue
+        for nm, true in (("ln 2", LN2), ("ln 2 / 2", LN2 / 2), ("1 / ln 2", LN2INV)):
+            if abs(Fraction(lit) - true) <= true / 1000:
+                for b in BITS:
+                    v = round_to(b, lit)
+                    ok = abs(v - true) <= ulp(b, true) / 2
+                    r.ob("R17.2", f"{REL}::get_log2_doubleword_and_inverse result #{pos} ({nm}) float{b} correctly rounded", ok,
+                         f"{lit!r} rounds to {float(v)!r} in float{b}; |error| = {float(abs(v - true)):.3e} > half ulp", loc(REL, f))
     return r
